@@ -606,7 +606,9 @@ func DefNode(d *Def, curNs string, ch Chooser) (*YNode, *YNode) {
 		} else {
 			n.Tag = "!flags"
 		}
-		if d.Base != "" {
+		if d.Base != "" && d.BaseRef != nil {
+			n.Put("base", YS(refName(d.BaseRef, curNs)))
+		} else if d.Base != "" {
 			n.Put("base", YS(primSpelling(d.Base, ch)))
 		}
 		if d.ListValues {
